@@ -504,20 +504,25 @@ func passFair(site int) {
 	c := s.cur
 	s.step++
 	s.lstep[c]++
-	s.opSteps[c]++
 	s.since++
+	// (a blocked poll does not count against the operation's step budget: how long a
+	// client waits depends on the others; a wait that can never end is the deadlock
+	// detector's business)
 	st := int32(site)
 	if s.cfg.OnStep != nil {
 		s.cfg.OnStep(c, st)
 	}
 	s.lastSite[c] = st
-	if s.cfg.StepCap != 0 && s.opSteps[c] > s.cfg.StepCap {
-		s.opSteps[c] = 0
-		panic(StepCapExceeded{})
-	}
 	to := -1
-	if s.cfg.Policy == PolForced {
+	switch s.cfg.Policy {
+	case PolForced:
 		to = decide(c, st)
+	case PolPCT:
+		// a blocked client drops to the lowest priority: otherwise the priority scheduler
+		// hands the baton straight back to it and whoever it waits for starves
+		s.lowPrio--
+		s.prio[c] = s.lowPrio
+		to = bestPrio()
 	}
 	if to < 0 || to == c || !s.alive[to] {
 		to = nextCyclic(c)
